@@ -351,82 +351,63 @@ For every registered name, what the object of that name looks like: its class an
 references written as *names*.  Before the trip the names come from the serializer's registry,
 after the trip from the un-serializer's memo table.  Inlined objects are described in place. -/
 
-inductive Desc where
+/-- One token of a description; an object is `open cls k` followed by the tokens of its `k` fields
+(pre-order with arities: an unambiguous flat rendering of the tree, with decidable equality). -/
+inductive Tok where
   | lit (n : Int)
   | str (s : Str)
   | ref (name : Str)
-  | own (cls : Nat) (fields : List Desc)
+  | opn (cls : Nat) (k : Nat)   -- an object (top-level or inlined) with `k` fields
   | pending
-  | anon                -- a named reference to an object that has no name / dangling
-  deriving Repr, Inhabited
+  | anon                        -- a reference to an object that has no name / dangling / too deep
+  deriving DecidableEq, Repr, Inhabited
 
-def Desc.beq : Desc → Desc → Bool
-  | .lit a, .lit b => a == b
-  | .str a, .str b => a == b
-  | .ref a, .ref b => a == b
-  | .pending, .pending => true
-  | .anon, .anon => true
-  | .own c fs, .own d gs => c == d && beqList fs gs
-  | _, _ => false
-where beqList : List Desc → List Desc → Bool
-  | [], [] => true
-  | a :: as, b :: bs => Desc.beq a b && beqList as bs
-  | _, _ => false
-
-instance : BEq Desc := ⟨Desc.beq⟩
+abbrev Desc := List Tok
 
 /-- Expected description of heap object `o` under the naming `reg` (fuel for inlined nesting). -/
-def descObj (h : Heap) (reg : Reg) : Nat → Nat → Option (Nat × List Desc)
-  | 0, _ => none
+def descObj (h : Heap) (reg : Reg) : Nat → Nat → Desc
+  | 0, _ => [.anon]
   | f + 1, o =>
     match h[o]? with
-    | none => none
+    | none => [.anon]
     | some ob =>
-      some (ob.cls, ob.fields.map fun fld =>
+      .opn ob.cls ob.fields.length :: (ob.fields.map fun fld =>
         match fld.val with
-        | .lit n => .lit n
-        | .str s => .str s
-        | .ref p => match lookupName reg p with | some n => .ref n | none => .anon
-        | .own p => match descObj h reg f p with | some (c, fs) => .own c fs | none => .anon)
+        | .lit n => [Tok.lit n]
+        | .str s => [Tok.str s]
+        | .ref p => match lookupName reg p with | some n => [Tok.ref n] | none => [Tok.anon]
+        | .own p => descObj h reg f p).flatten
 
 def nameOfIdx : List (Str × Nat) → Nat → Option Str
   | [], _ => none
   | (n, i) :: r, j => if i = j then some n else nameOfIdx r j
 
 /-- Description of restored object `i` under the un-serializer's memo table. -/
-def descL (heap : List LObj) (memo : List (Str × Nat)) : Nat → Nat → Option (Nat × List Desc)
-  | 0, _ => none
+def descL (heap : List LObj) (memo : List (Str × Nat)) : Nat → Nat → Desc
+  | 0, _ => [.anon]
   | f + 1, i =>
     match heap[i]? with
-    | none => none
+    | none => [.anon]
     | some lo =>
-      some (lo.cls, lo.fields.map fun v =>
+      .opn lo.cls lo.fields.length :: (lo.fields.map fun v =>
         match v with
-        | .lit n => .lit n
-        | .str s => .str s
-        | .ref j => match nameOfIdx memo j with | some n => .ref n | none => .anon
-        | .own j => match descL heap memo f j with | some (c, fs) => .own c fs | none => .anon
-        | .pending => .pending)
+        | .lit n => [Tok.lit n]
+        | .str s => [Tok.str s]
+        | .ref j => match nameOfIdx memo j with | some n => [Tok.ref n] | none => [Tok.anon]
+        | .own j => descL heap memo f j
+        | .pending => [Tok.pending]).flatten
 
-abbrev View := List (Str × Option (Nat × List Desc))
+abbrev View := List (Str × Desc)
 
 def viewBefore (h : Heap) (reg : Reg) : View :=
   reg.map fun e => (e.2, descObj h reg (h.length + 1) e.1)
 
 def viewAfter (reg : Reg) (st : LState) : View :=
-  reg.map fun e => (e.2, (lookupMemo st.memo e.2).bind (descL st.heap st.memo (st.heap.length + 1)))
+  reg.map fun e => (e.2, match lookupMemo st.memo e.2 with
+    | some i => descL st.heap st.memo (st.heap.length + 1) i
+    | none => [.anon])
 
-def optDescBeq : Option (Nat × List Desc) → Option (Nat × List Desc) → Bool
-  | none, none => true
-  | some (c, fs), some (d, gs) => c == d && Desc.beq.beqList fs gs
-  | _, _ => false
-
-def viewBeq : View → View → Bool
-  | [], [] => true
-  | (n, a) :: r, (m, b) :: s => n == m && optDescBeq a b && viewBeq r s
-  | _, _ => false
-
-/-- Distinct names are distinct restored objects. -/
+/-- Distinct names are distinct restored objects (and every name is restored). -/
 def memoDistinct (reg : Reg) (st : LState) : Bool :=
   let idx := reg.filterMap fun e => lookupMemo st.memo e.2
   idx.length == reg.length && idx.eraseDups.length == idx.length
@@ -436,7 +417,7 @@ objects, every restored object has the class and the fields (literals, strings, 
 name*, inlined objects structurally) of the object that was saved under that name, and nothing is
 left pending. -/
 def specRoundTrip (h : Heap) (reg : Reg) (st : LState) : Bool :=
-  memoDistinct reg st && viewBeq (viewBefore h reg) (viewAfter reg st)
+  memoDistinct reg st && decide (viewAfter reg st = viewBefore h reg)
 
 /-! ## Hypotheses of the theorems (decidable) -/
 
